@@ -25,12 +25,22 @@ impl Monitor for C07 {
     fn sizes(&self, tier: Tier) -> Sizes { match tier { Tier::Quick => Sizes { cases: 4_000, min_nontrivial: 8_000 }, Tier::Thorough => Sizes { cases: 200_000, min_nontrivial: 400_000 } } }
 
     fn generate(&self, rng: &mut Rng, _tier: Tier) -> J {
-        let (mut case, _t, sel, _shape) = gen_base(rng, &BaseCfg { shapes: &[Shape::Plain, Shape::Plain, Shape::Distinct, Shape::Aggregate, Shape::Join, Shape::JoinAggregate], allow_limit: false, allow_having: true, agg_distinct: true, order_insensitive_only: false, exact_data: true, min_lines: 0, max_lines: 14, not_null_column: false, big_rate: 300, big_lines: 600 });
+        let (mut case, _t, mut sel, _shape) = gen_base(rng, &BaseCfg { shapes: &[Shape::Plain, Shape::Plain, Shape::Distinct, Shape::Aggregate, Shape::Join, Shape::JoinAggregate], allow_limit: false, allow_having: true, agg_distinct: true, order_insensitive_only: false, exact_data: true, min_lines: 0, max_lines: 14, not_null_column: false, big_rate: 300, big_lines: 600 });
         let n = case["lines"].as_array().map(|a| a.len()).unwrap_or(0);
         let k = 1 + rng.below(3);
         let mut cuts: Vec<usize> = (0..k - 1).map(|_| rng.below(n + 1)).collect();
         cuts.sort();
         case["cuts"] = json!(cuts);
+        // DISTINCT over a result table whose keys are not (all) shown: rows repeat, and LIMIT counts the rows that remain
+        if sel.group_by.is_some() && rng.chance(1, 5) {
+            sel.distinct = true;
+            let keys = sel.group_by.clone().unwrap_or_default();
+            let hide = if keys.len() >= 2 && rng.chance(1, 2) { vec![keys[0].clone()] } else { keys };
+            sel.projs.retain(|(e, _)| !hide.contains(e));
+            if sel.projs.is_empty() { sel.projs.push((E::Agg("count".into(), false, vec![E::Star]), None)); }
+            if rng.chance(1, 2) { sel.having = None; }
+            case["stmt"] = json!(sel.text(Paren::Full));
+        }
         case["sel"] = sel.to_json();
         case
     }
